@@ -8,7 +8,9 @@
  * symfile (written by checks/c19.py from nm / readelf on the rebuilt .so):
  *   REF <hex>            link-time address of the reference symbol (imb_get_version)
  *   RODATA <hex> <hex>   link-time [lo, hi) of .rodata
- *   SYM <hex> <name>     one line per symbol inside .rodata, sorted by address
+ *   SYM <hex> <name>     one line per symbol inside .text/.rodata, sorted by address
+ *   TABLE <id> <hex> <hex>  region id (Struct/Leak.v region_id) and link-time [lo, hi) of a
+ *                        table the Coq model knows about
  *
  * In-band announcements by the harness (stores into the marker page at
  * 0x7e0000000000; lackey shows addresses only, so addresses carry the data):
@@ -25,6 +27,7 @@
  *              inside the IMB_JOB ring folded to slot offsets>
  *       ntab=<accesses inside the library's .rodata> thash=<hash of those>
  *   TAB <idx> <run-length encoded .rodata accesses: sym+off/size*count@stride ...>
+ *   MTAB <idx> <run-length encoded loads inside the TABLE windows: id:off/size*count@stride ...>
  * With --dump the normalised event list of that segment is written to a file
  * (one event per line, instruction addresses relative to the library).
  */
@@ -83,14 +86,18 @@ typedef struct {
         int64_t stride;
 } run_t;
 
-static run_t *runs;
-static size_t nruns, caprun;
+typedef struct {
+        run_t *v;
+        size_t n, cap;
+} runlist_t;
+
+static runlist_t tab_runs, mtab_runs;
 
 static void
-run_add(int sym, uint64_t off, unsigned size)
+run_add(runlist_t *L, int sym, uint64_t off, unsigned size)
 {
-        if (nruns > 0) {
-                run_t *r = &runs[nruns - 1];
+        if (L->n > 0) {
+                run_t *r = &L->v[L->n - 1];
 
                 if (r->sym == sym && r->size == size) {
                         const int64_t d = (int64_t) off - (int64_t) (r->off + (r->count - 1) * r->stride);
@@ -106,13 +113,68 @@ run_add(int sym, uint64_t off, unsigned size)
                         }
                 }
         }
-        if (nruns == caprun) {
-                caprun = caprun ? caprun * 2 : 1024;
-                runs = realloc(runs, caprun * sizeof(run_t));
-                if (runs == NULL)
+        if (L->n == L->cap) {
+                L->cap = L->cap ? L->cap * 2 : 1024;
+                L->v = realloc(L->v, L->cap * sizeof(run_t));
+                if (L->v == NULL)
                         exit(3);
         }
-        runs[nruns++] = (run_t){ sym, off, size, 1, 0 };
+        L->v[L->n++] = (run_t){ sym, off, size, 1, 0 };
+}
+
+/* windows of the tables the Coq model knows about (link addresses).  Several windows may
+ * carry the same region id (copies of a table) and windows may overlap (a scan that runs
+ * past its table into the next one). */
+#define MAXWIN 64
+static uint64_t win_lo[MAXWIN], win_hi[MAXWIN];
+static int win_id[MAXWIN];
+static int nwin;
+
+/* Same run-length encoding as Struct/Leak.v [run_push], on (region id, offset in window):
+ * an access first tries to continue the current run inside one of its windows with the
+ * run's region id; otherwise it starts a new run in the window where its offset is smallest
+ * (a scan starts at offset 0 of its own table). */
+static void
+mtab_add(runlist_t *L, uint64_t la, unsigned size)
+{
+        int best = -1;
+        uint64_t best_off = 0;
+
+        for (int i = 0; i < nwin; i++) {
+                if (la < win_lo[i] || la >= win_hi[i])
+                        continue;
+                const uint64_t off = la - win_lo[i];
+
+                if (L->n > 0) {
+                        run_t *r = &L->v[L->n - 1];
+
+                        if (r->sym == win_id[i] && r->size == size) {
+                                if (r->count == 1 && off >= r->off) {
+                                        r->stride = (int64_t) (off - r->off);
+                                        r->count = 2;
+                                        return;
+                                }
+                                if (r->count > 1 &&
+                                    (int64_t) off == (int64_t) r->off + (int64_t) r->count * r->stride) {
+                                        r->count++;
+                                        return;
+                                }
+                        }
+                }
+                if (best < 0 || off < best_off) {
+                        best = i;
+                        best_off = off;
+                }
+        }
+        if (best < 0)
+                return;
+        if (L->n == L->cap) {
+                L->cap = L->cap ? L->cap * 2 : 1024;
+                L->v = realloc(L->v, L->cap * sizeof(run_t));
+                if (L->v == NULL)
+                        exit(3);
+        }
+        L->v[L->n++] = (run_t){ win_id[best], best_off, size, 1, 0 };
 }
 
 int
@@ -132,12 +194,20 @@ main(int argc, char **argv)
         while (fgets(line, sizeof(line), sf) != NULL) {
                 unsigned long long a, b;
                 char nm[256];
+                int tid;
 
                 if (sscanf(line, "REF %llx", &a) == 1)
                         ref_link = a;
                 else if (sscanf(line, "RODATA %llx %llx", &a, &b) == 2) {
                         ro_lo = a;
                         ro_hi = b;
+                } else if (sscanf(line, "TABLE %d %llx %llx", &tid, &a, &b) == 3) {
+                        if (nwin < MAXWIN) {
+                                win_id[nwin] = tid;
+                                win_lo[nwin] = a;
+                                win_hi[nwin] = b;
+                                nwin++;
+                        }
                 } else if (sscanf(line, "SYM %llx %255s", &a, nm) == 2) {
                         if ((size_t) nsyms == cap) {
                                 cap = cap ? cap * 2 : 256;
@@ -198,7 +268,8 @@ main(int argc, char **argv)
                                 in_seg = 1;
                                 ni = nl = ns = nm = ntab = 0;
                                 ih = dh = th = 0xcbf29ce484222325ULL;
-                                nruns = 0;
+                                tab_runs.n = 0;
+                                mtab_runs.n = 0;
                                 df = NULL;
                                 for (int i = 0; i < ndump; i++)
                                         if (dump_idx[i] == seg)
@@ -219,11 +290,20 @@ main(int argc, char **argv)
                                        (unsigned long long) ih, (unsigned long long) dh,
                                        (unsigned long long) ntab, (unsigned long long) th);
                                 printf("TAB %ld", seg);
-                                for (size_t i = 0; i < nruns; i++) {
-                                        const run_t *r = &runs[i];
+                                for (size_t i = 0; i < tab_runs.n; i++) {
+                                        const run_t *r = &tab_runs.v[i];
 
                                         printf(" %s+%llu/%u*%llu@%lld",
                                                r->sym >= 0 ? syms[r->sym].name : "?",
+                                               (unsigned long long) r->off, r->size,
+                                               (unsigned long long) r->count, (long long) r->stride);
+                                }
+                                printf("\n");
+                                printf("MTAB %ld", seg);
+                                for (size_t i = 0; i < mtab_runs.n; i++) {
+                                        const run_t *r = &mtab_runs.v[i];
+
+                                        printf(" %d:%llu/%u*%llu@%lld", r->sym,
                                                (unsigned long long) r->off, r->size,
                                                (unsigned long long) r->count, (long long) r->stride);
                                 }
@@ -274,7 +354,9 @@ main(int argc, char **argv)
 
                         ntab++;
                         th = fnv(fnv(fnv(th, (uint64_t) (s + 1)), off), size);
-                        run_add(s, off, size);
+                        run_add(&tab_runs, s, off, size);
+                        if (kind == 'L')
+                                mtab_add(&mtab_runs, la, size);
                         if (df != NULL)
                                 fprintf(df, "%c %s+%llu %u\n", kind, s >= 0 ? syms[s].name : "?",
                                         (unsigned long long) off, size);
